@@ -22,7 +22,7 @@ def dispatch (d : DState) (s : Step) : DState :=
     else
       let r := stepValSet d.vs a s
       { d with vs := r.1, acc := r.2 }
-  | "cbegin" | "cend" | "crecvvsc" | "cslash" | "cack" | "cqueuematured" | "cfees" | "crefund" | "ctch" | "cmkconn" | "cchaninit" | "cchantry" | "cchanconfirm" | "cchanack" | "ccloseinit" =>
+  | "cbegin" | "cend" | "crecvvsc" | "cslash" | "cack" | "cqueuematured" | "cfees" | "crefund" | "ctch" | "cmkconn" | "cchanclose" | "cchaninit" | "cchantry" | "cchanconfirm" | "cchanack" | "ccloseinit" =>
     let r := stepCons d.cd a s
     { d with cd := r.1, acc := r.2 }
   | _ =>
